@@ -2,7 +2,7 @@
    Same case format as harness/h_storage.c, plus what the model needs to be told:
      case <id> <raw|tiff|tiffjson|trash> <variant>      variant: fixed | unfixed | five 0/1 digits d3 d4 d5a d5b d6
      init <fd> <fd> ...                                 descriptors open when the device is created (harness line I)
-     c <tail> <entries>          w <tail> <entries...>
+     c <tail> <entries>          w <tail> <entries...>      (a failing pwrite: E | EIO | ENOSPC | EAGAIN | EINTR | EBADF)
      set <uri> <metadata length> | start | append <hex> <ld,lfirst,lother;...|-> | stop | envopen | envclose <k>
      end
    Output: O/S/E/R lines as the harness prints them, then after the close
@@ -93,7 +93,12 @@ let () =
          | _ -> Printf.printf "R %s %s\n" (match s with Ok -> "ok" | Err -> "err") (state_name (get_state d1)))
     end in
   let cresp_of = function 'f' -> CFailOpen | 'l' -> CFailLock | _ -> COk in
-  let wresp_of t = if t = "F" then WFull else if t = "E" then WErr else WCount (nat_of_int (int_of_string t)) in
+  (* write-script tokens: F = everything, <n> = min n remaining bytes, E = EIO, or the errno by name *)
+  let wresp_of t = match t with
+    | "F" -> WFull
+    | "E" | "EIO" -> WErr EIO | "ENOSPC" -> WErr ENOSPC | "EAGAIN" -> WErr EAGAIN | "EINTR" -> WErr EINTR
+    | "EBADF" -> WErr EBADF
+    | _ -> WCount (nat_of_int (int_of_string t)) in
   (try
      while true do
        let line = input_line stdin in
